@@ -493,7 +493,21 @@ func (c *FnCtx) mapKeyIndex(mt *types.Map, k Val) string {
 	case kInt, kIface, kOpaque:
 		return k.S
 	case kStr:
-		return sx("strid", k.S)
+		t := sx("strid", k.S)
+		if strings.Contains(k.S, "_q") {
+			// key mentions a bound variable: fall back to the quantified
+			// injectivity axiom
+				return t
+		}
+		// injectivity without a quantifier: strid has a left inverse
+		if c.stridSeen == nil {
+			c.stridSeen = map[string]bool{}
+		}
+		if !c.stridSeen[k.S] {
+			c.stridSeen[k.S] = true
+			c.assumeRaw(eq(sx("strof", t), k.S))
+		}
+		return t
 	}
 	bail("map key kind %d", k.K)
 	return ""
@@ -515,7 +529,6 @@ func (c *FnCtx) mapLookup(fr *frame, st *State, t *ssa.Lookup) Val {
 		bail("map with struct values")
 	}
 	if mt.Key().Underlying() == types.Typ[types.String].Underlying() {
-		c.eng.usesStrID = true
 	}
 	ki := c.mapKeyIndex(mt, k)
 	vs := sortOf(mt.Elem())
@@ -537,7 +550,6 @@ func (c *FnCtx) mapUpdate(fr *frame, st *State, t *ssa.MapUpdate) {
 	v := c.coerce(c.value(fr, t.Value), t.Value.Type())
 	dk, vk, mt := c.mapKeys(t.Map.Type())
 	if mt.Key().Underlying() == types.Typ[types.String].Underlying() {
-		c.eng.usesStrID = true
 	}
 	c.oblige(st, "nil", "assignment to entry in nil map", not(eq(m.S, "0")), t.Pos(), "")
 	ki := c.mapKeyIndex(mt, k)
@@ -577,7 +589,6 @@ func (c *FnCtx) rangeNext(fr *frame, st *State, t *ssa.Next) Val {
 	}
 	dk, vk, mt := c.mapKeys(m.T)
 	if mt.Key().Underlying() == types.Typ[types.String].Underlying() {
-		c.eng.usesStrID = true
 	}
 	// Arbitrary key of the domain; "ok" arbitrary. This over-approximates
 	// iteration (any key any number of times), which is sound for safety.
